@@ -163,7 +163,7 @@ def check(ctx):
         gstats.append({k: g[k] for k in ("behaviours", "transitions", "distinct", "wall_s") if k in g})
     log("GEN: %s" % gstats)
     build_s = cargo_build(ctx, ["query"])
-    nrand = 1500 if ctx.quick() else 30000
+    nrand = 1500 if ctx.quick() else 60000
     summ, lines = record(ctx, behs, nrand, 3 if ctx.quick() else 6)
     log("HARNESS: %s (build %ss)" % (summ, build_s))
     t1 = time.time()
